@@ -26,7 +26,7 @@ Definition map_signal (k : sigk) : stopcmd :=
   end.
 
 (* Pause / Resume only wake the accept loop and acknowledge *)
-Inductive cmd := CStop (c : stopcmd) | COther.
+Inductive cmd := CStop (c : stopcmd) | COther (resume : bool).   (* Pause(tx) / Resume(tx) *)
 
 (* the oneshot between the server and worker i, once a stop was sent *)
 Inductive wack := WPending | WAcked (b : bool) | WDropped.
@@ -55,7 +55,7 @@ Record sst := mkSst {
 
 Inductive sop :=
 | UStop (g : bool)           (* a user calls ServerHandle::stop(g); its future gets the next id *)
-| UOther                     (* pause() / resume() *)
+| UOther (resume : bool)     (* pause() / resume(): the command is sent eagerly, as for stop *)
 | USignal (k : sigk)
 | WAck (i : nat) (b : bool)  (* worker i acknowledges its stop *)
 | WDrop (i : nat)            (* worker i drops the ack sender (second stop, dead worker, ...) *)
@@ -65,7 +65,7 @@ Inductive sop :=
 
 Inductive sobs :=
 | OWakeStop                  (* waker_queue.wake(WakerInterest::Stop) *)
-| OWakeOther
+| OWakeOther (resume : bool) (* waker_queue.wake(WakerInterest::Pause | Resume), then tx.send(()) *)
 | OWorkerStop (i : nat) (g : bool)   (* worker_handles[i].stop(g) *)
 | OJoinPolled (i : nat) (ready : bool)
 | OJoinDone (res : list (option bool))
@@ -128,7 +128,7 @@ Definition completion_obs (c : stopcmd) : list sobs :=
 Definition dropped_obs (q : list cmd) : list sobs :=
   flat_map (fun x => match x with
                      | CStop c => match sc_completion c with Some n => [OResolved n] | None => [] end
-                     | COther => [] end) q.
+                     | COther _ => [] end) q.
 
 Definition finish_srv (s : sst) (c : stopcmd) : sst * list sobs :=
   (set_cmdq (set_ctl s (SDone c)) [], OServerDone :: dropped_obs (cmdq s)).
@@ -149,7 +149,7 @@ Definition spoll (cf : scfg) (s : sst) : sst * list sobs :=
       | None =>
           match cmdq s with
           | [] => (s, [])
-          | COther :: q => (set_cmdq s q, [OWakeOther])
+          | COther b :: q => (set_cmdq s q, [OWakeOther b])
           | CStop c :: q => handle_stop (s_workers cf) (set_cmdq s q) c
           end
       end
@@ -191,7 +191,7 @@ Definition srv_step (cf : scfg) (s : sst) (o : sop) : sst * list sobs :=
       if is_done (ctl s)
       then (set_next s (S n), [OResolved n])   (* cmd_tx.send fails: the command and its sender are dropped *)
       else (set_cmdq (set_next s (S n)) (cmdq s ++ [CStop (mkStop g (Some n) false)]), [])
-  | UOther => if is_done (ctl s) then (s, []) else (set_cmdq s (cmdq s ++ [COther]), [])
+  | UOther b => if is_done (ctl s) then (s, []) else (set_cmdq s (cmdq s ++ [COther b]), [])
   | USignal k => (mkSst (ctl s) (cmdq s) (sigs s ++ [k]) (sig_armed s) (acks s) (accept_exited s) (timer_fired s) (next_stop s), [])
   | WAck i b => (set_acks s (resolve_ack i (WAcked b) (acks s)), [])
   | WDrop i => (set_acks s (resolve_ack i WDropped (acks s)), [])
